@@ -6,7 +6,7 @@ set -u
 ID=$1; WT=$2; RUN=$3
 OUT=/verif/seeded/$ID; mkdir -p $OUT
 cd $WT || exit 2
-cp _seed/patch.diff $OUT/patch.diff; cp _seed/demo.cc $OUT/; cp _seed/*.wb $OUT/ 2>/dev/null; cp _seed/README.txt $OUT/README_agent.txt
+cp _seed/patch.diff $OUT/patch.diff; cp _seed/demo.cc $OUT/; cp _seed/*.wb _seed/*.grid $OUT/ 2>/dev/null; cp _seed/README.txt $OUT/README_agent.txt
 git checkout -q -- source include 2>/dev/null
 git apply $OUT/patch.diff || { echo "patch does not apply"; exit 2; }
 cmake --build _build -j16 > /dev/null 2>&1 || { echo "BUILD FAILED with change"; exit 2; }
